@@ -99,6 +99,7 @@ pixman_edge_step (pixman_edge_t *e,
     e->x += n * e->stepx;
 
     ne = e->e + n * (pixman_fixed_48_16_t) e->dx;
+    e->e = ne;
 
     if (n >= 0)
     {
